@@ -373,6 +373,10 @@ def gen_case(rng: random.Random, P: Dict[str, Any]) -> Case:
             t = mk(s, "", "always", 0, forward_only=True)
             if t is not None and t.guard is None and rng.random() < 0.5:
                 t.guard = rng.choice(case.atoms[:natoms])
+        if s.kind != "final" and rng.random() < P["p_after"]:
+            for pos, delay in enumerate(rng.sample(P.get("after_delays", [100000, 200000, 300000]),
+                                                   rng.randint(1, 2))):
+                mk(s, f"after.{delay}.{s.id}", "after", 0, delay=delay)
         if s.kind in ("compound", "parallel") and s is not tree.root \
                 and rng.random() < P["p_ondone"]:
             has_final = any(d.kind == "final" for d in s.subtree())
